@@ -197,7 +197,9 @@ def gibbs_cases(draw, tier="quick"):
             "warmup": draw(st.sampled_from([0, 0, 2])), "seed": draw(st.integers(0, 10 ** 6)), "probe": draw(gen.vec(4, -0.5, 0.5)),
             # the dictionaries handed to the sampler are keyed by block name: their key order is free and the step counts may be
             # given for some blocks only (default 1)
-            "dict_order": draw(st.permutations(names)), "nsteps_given": {n: draw(st.sampled_from([True, True, False])) for n in names}}
+            "dict_order": draw(st.permutations(names)), "nsteps_given": {n: draw(st.sampled_from([True, True, False])) for n in names},
+            # the step-count argument left out altogether (documented default: one step per block)
+            "nsteps_omitted": draw(st.sampled_from([False, False, False, True]))}
 
 
 def conditioned_joint(spec):
@@ -286,6 +288,8 @@ def run_hybrid(c, rec):
 
     dorder = [b for b in c.get("dict_order", order) if b in order] + [b for b in order if b not in c.get("dict_order", order)]
     given = c.get("nsteps_given", {})
+    if c.get("nsteps_omitted"):
+        given = {b: False for b in order}
     nsteps_eff = {b: (c["nsteps"][b] if given.get(b, True) else 1) for b in order}
 
     def build(assign):
@@ -303,6 +307,8 @@ def run_hybrid(c, rec):
             s = cls(**kw)
             s.spy_name = b
             strat[b] = s
+        if c.get("nsteps_omitted"):
+            return E.HybridGibbs(J, strat)
         return E.HybridGibbs(J, strat, num_sampling_steps={b: c["nsteps"][b] for b in reversed(dorder) if given.get(b, True)})
     assign = {b: c["prefer"][b] for b in order}
     for b in order:  # fall back to MH where the preferred sampler does not accept the block's conditional
